@@ -63,7 +63,7 @@ func init() {
 	})
 	prop(&PropDef{
 		ID:          "C06",
-		Rules:       []string{"TAB-3", "TAB-4", "TAB-8", "TAB-9", "TAB-11", "TAB-1", "IDX-5", "IDX-7", "PUB-1", "DUR-1", "DUR-2", "ERR-1", "NIL-1", "TAB-12"},
+		Rules:       []string{"TAB-3", "TAB-4", "TAB-8", "TAB-9", "TAB-11", "TAB-1", "IDX-5", "IDX-7", "PUB-1", "DUR-1", "DUR-2", "ERR-1", "NIL-1", "TAB-12", "OWN-2"},
 		Explanation: "Tables that must agree for persist-and-reload to be the identity: the on-disk FileIndex/FileNamespace mirror IndexConfig/Collection field by field with plain copies in both directions, the codec tags are usable, every stored index is rebuilt from the loaded documents under its saved name and a duplicate fails the load, the BSON type universe is closed under Inspect/cloneValue, and the catalog that is persisted is the one that is published (retention runs before both). The fidelity of the bson codec for each value is third-party and per-value: NOT decided.",
 		Decided:     []string{"namespace key join/split agree (first separator, two parts), Validate rejects the separator in database names, every Transaction entry point validates", "per-namespace maps are allocated per namespace in BuildFile/BuildCatalog", "field coverage and plain-copy round trip of index definitions", "codec tags", "index rebuild on load", "type universe closure", "file and memory see the same catalog at commit"},
 		NotDecided:  []string{"bson codec fidelity per value (NaN, -0, decimal exponents)", "natural order after reload beyond 'documents are written in set order'"},
@@ -95,7 +95,7 @@ func init() {
 	})
 	prop(&PropDef{
 		ID:          "C10",
-		Rules:       []string{"TAB-2", "SEM-1", "SEM-4", "SEM-2", "SEM-9", "NUM-5", "FLAG-1", "FLAG-2", "REC-1", "SCH-1", "SEM-10", "NUM-6", "SEM-12", "SEM-13"},
+		Rules:       []string{"TAB-2", "SEM-1", "SEM-4", "SEM-2", "SEM-9", "NUM-5", "FLAG-1", "FLAG-2", "REC-1", "SCH-1", "SEM-10", "NUM-6", "SEM-12", "SEM-13", "FLAG-3", "NUM-8"},
 		Explanation: "Wiring and finite-domain semantics of query operators: every operator is registered, multi-name functions dispatch on exactly the registered names; matchComp's truth table over (type bracketing flag x sign of Compare) is the MongoDB one for each label; $ne/$nin/$nor are matchNegate around the function registered for $eq/$in/$or with the same arguments, matchNegate is an exact negation, and the per-iteration outcome tables of matchAnd/matchOr/matchNot are conjunction/disjunction/negated conjunction. These hold for every document and filter. Path traversal, array fan-out and the element-wise operators ($all, $size, $elemMatch, $mod, $bits*, $type, $exists, $jsonSchema) are NOT decided (DESIGN section 8).",
 		Decided:     []string{"matchUnwind flags agree with $eq for every leaf operator ($all excepted)", "exact ranges for int64<->float64 conversions in comparisons", "no never-set flag in operator code", "registries and dispatch", "comparison truth table incl. bracketing (36 cases)", "negation structure and logical connective tables"},
 		NotDecided:  []string{"dotted-path traversal and array fan-out", "$all/$size/$elemMatch/$mod/$bits/$type/$exists/$jsonSchema semantics", "agreement with a reference evaluator"},
@@ -103,7 +103,7 @@ func init() {
 	})
 	prop(&PropDef{
 		ID:          "C11",
-		Rules:       []string{"TAB-2", "TAB-5", "ATOM-3", "NUM-3", "LOG-4", "OWN-4u", "MOD-1", "UPD-1", "UPD-2", "UPD-3", "UPD-4", "FLAG-1", "FLAG-2", "REC-1", "ASSUME-1", "WIN-2", "UPS-1", "NIL-1", "UPD-5", "REC-2", "NUM-7", "MOD-2"},
+		Rules:       []string{"TAB-2", "TAB-5", "ATOM-3", "NUM-3", "LOG-4", "OWN-4u", "MOD-1", "UPD-1", "UPD-2", "UPD-3", "UPD-4", "FLAG-1", "FLAG-2", "REC-1", "ASSUME-1", "WIN-2", "UPS-1", "NIL-1", "UPD-5", "REC-2", "NUM-7", "MOD-2", "NUM-9", "UPD-6"},
 		Explanation: "Structural parts of update semantics: all 15 operators are registered and assert the context type their only Process site supplies; bsonkit.Add/Mul return the promoted static type for each of the 16 type pairs; an update is rejected as a whole (apply errors and the _id check dominate every index/Documents mutation); updates are applied to clones; modified-count filtering keeps documents and change records in lock step. Integer overflow (NUM-3) is a recorded known finding. What each operator computes on each document and idempotence are NOT decided.",
 		Decided:     []string{"$addToSet scans the array it grows", "no never-set flag in operator code", "operator wiring", "numeric promotion table (32 cases)", "reject-as-a-whole ordering", "apply-on-clone"},
 		NotDecided:  []string{"operator results ($push modifiers, $pull conditions, positional paths)", "idempotence laws", "field order preservation"},
@@ -119,7 +119,7 @@ func init() {
 	})
 	prop(&PropDef{
 		ID:          "C13",
-		Rules:       []string{"WIN-1", "WIN-2", "WIN-3", "WIN-4", "WIN-5", "WIN-6", "NUM-1", "NUM-5", "WIN-7"},
+		Rules:       []string{"WIN-1", "WIN-2", "WIN-3", "WIN-4", "WIN-5", "WIN-6", "NUM-1", "NUM-5", "WIN-7", "WIN-8", "SEM-7"},
 		Explanation: "Structural parts of sort/skip/limit: in-place sorts only ever permute lists made in the same function (a sorted find cannot reorder the collection), document sorts are stable, the window is composed as sort(full list) -> filter(limit+skip under limit>0) -> drop skip under a bounds guard in all four siblings, and no allocation is sized by the caller's limit. The ordering produced by sortKey/Order, window arithmetic on values and distinct de-duplication are NOT decided.",
 		Decided:     []string{"Set keeps insertion order", "sortKey operand and update table over all loop-body paths", "no shared list is sorted in place", "stable sorts", "window composition in Find/Replace/Update/Delete", "bounded preallocation"},
 		NotDecided:  []string{"the order relation itself (per-direction array keys, missing as null)", "distinct"},
@@ -127,7 +127,7 @@ func init() {
 	})
 	prop(&PropDef{
 		ID:          "C14",
-		Rules:       []string{"OWN-4p", "TAB-2", "NUM-2s", "PROJ-1", "PROJ-2", "PROJ-3", "PROJ-4", "FLAG-1", "ASSUME-1", "PROJ-5", "PROJ-6", "PROJ-7"},
+		Rules:       []string{"OWN-4p", "TAB-2", "NUM-2s", "PROJ-1", "PROJ-2", "PROJ-3", "PROJ-4", "FLAG-1", "ASSUME-1", "PROJ-5", "PROJ-6", "PROJ-7", "PROJ-8"},
 		Explanation: "The non-interference clause of projections - projecting never alters the stored document - decided by the sharing analysis: every in-place mutation reachable from mongokit.Project works on containers that are fresh (Project clones its input first, so nested inclusions and operator overlays cannot write through to the original); the projection operators are registered and assert the state type Project supplies; the integer arithmetic of $slice windows cannot overflow before it is clamped. Which fields an inclusion/exclusion returns is NOT decided.",
 		Decided:     []string{"projectCondition effect table over (inclusion flag, path == _id)", "Project/ProjectList never write into their input", "projection registry", "$slice bounds arithmetic"},
 		NotDecided:  []string{"which paths are returned", "$elemMatch selection", "values of the window"},
